@@ -137,7 +137,7 @@ package generator
 //@   requires forall i int :: 0 <= i && i < len(args.Out.UsedPlugins) ==> args.Out.UsedPlugins[i] != nil
 //@   requires forall i int :: 0 <= i && i < len(args.Out.SDKPlugins) ==> args.Out.SDKPlugins[i] != nil
 //@   propagates
-//@   ensures res != nil
+//@   ensures res != nil && forall k int :: 0 <= k && k < len(res.Contents) ==> res.Contents[k] != nil
 //@   ensures $failed ==> res.Error != nil
 //@   modifies *
 //@   site call:be.Generate assert req.GeneratorParameters == plugin.Pack(out.Options)
